@@ -150,6 +150,11 @@ func (r *armoredReader) Read(p []byte) (int, error) {
 	if len(line) > format.ColumnsPerLine {
 		return 0, r.setErr(errors.New("column limit exceeded"))
 	}
+	if len(line) == 0 {
+		// The encoder never emits an empty line: an empty body is encoded as
+		// no line at all, and a full last line is followed by the END line.
+		return 0, r.setErr(errors.New("empty line in armored body"))
+	}
 	r.unread = r.buf[:]
 	n, err := base64.StdEncoding.Strict().Decode(r.unread, line)
 	if err != nil {
